@@ -140,10 +140,12 @@ func decodeBinaryValue(reader ByteRuneReader, flag int32) ([]byte, error) {
 		if err != nil {
 			return nil, err
 		}
-		if newLength < length {
-			buf = buf[:newLength]
-			length = newLength
+		// every chunk has its own length: later chunks may be shorter or longer
+		if newLength > cap(buf) {
+			buf = make([]byte, newLength)
 		}
+		buf = buf[:newLength]
+		length = newLength
 	}
 
 	return byteBuf.Bytes(), nil
